@@ -39,7 +39,12 @@ void vp_body(u32 i) {
 #if SCEN == 1
   if (i == 100) VP_CHECK(wait_seen[0] == 1, "reuse body ran before the first wait returned");
 #endif
-  if ((THROW >> bit(i)) & 1) {
+#if SCEN == 4
+  int th = (i == 2) ? XT : (int)((THROW >> bit(i)) & 1);      /* X: concrete per query */
+#else
+  int th = (int)((THROW >> bit(i)) & 1);
+#endif
+  if (th) {
     VP_CHECK(nthrown < MAXT, "VP bound: number of throws");
     vp_throw_user(&ti_user); thrown[nthrown] = vp_exc; thrown_grp[nthrown] = g; nthrown++; grp_threw[g] = 1;
   }
@@ -57,7 +62,7 @@ void vp_wait_result(u32 g, u32 st, u32 threw, u32 cancelled_after) {
   VP_CHECK((int)threw == grp_threw[g], "wait must rethrow iff work of the group threw (exception swallowed or invented)");
   if (threw) {
     int ok = 0;
-    for (int k = 0; k < MAXT; k++) if (k < nthrown && thrown_grp[k] == (int)g && thrown[k] == caught_at_wait[g]) ok = 1;
+    for (int k = 0; k < MAXT; k++) ok |= (k < nthrown) & (thrown_grp[k] == (int)g) & (thrown[k] == caught_at_wait[g]);   /* (branch-free: no path fork) */
     VP_CHECK(ok, "the exception rethrown by wait is not one thrown by the group's work");
   } else if (SCEN == 4 && g >= 1 && grp_threw[0]) {
     VP_CHECK(st == 2, "wait of a nested group whose enclosing group was cancelled by an exception must report canceled");
@@ -76,11 +81,15 @@ int main(void) {
 #elif SCEN == 3
 #define TMASK (3u | (((1u << N) - 1) << 4))
 #elif SCEN == 4
-#define TMASK (2u | 4u | 16u | 32u)
+#define TMASK (2u | 16u | 32u)      /* whether X (bit 2) throws is concrete per query (XT), the other three are symbolic */
 #else
 #define TMASK 1u
 #endif
   THROW = (u32)vp_nd_range(0, 255) & TMASK;      /* which body invocations throw: every subset */
+#ifdef DBG_THROW
+  THROW = DBG_THROW;
+#endif
+
   vp_world_setup();
 #if SCEN == 0
   vp_probe(N);
